@@ -525,6 +525,232 @@ def select_histories(ctx, rng, cd, exe, dicts):
     ctx.notes["select_histories"] = len(cases)
 
 
+# ---------------------------------------------------------------------------------------------------------------------
+# Round 3: (1) call histories on one CCtx / one DCtx with placed input segments (harness/c08_hist.c); (2) unit-level tie of the mechanism
+# models C08Repeat (table re-use: ZSTD_dictNCountRepeat, ZSTD_loadCEntropy's marks, ZSTD_selectEncodingType) and C08Attach
+# (ZSTD_shouldAttachDict, retained content, index of the first repeat-offset probe) with the static functions themselves
+# (harness/c08_unit.c includes zstd_compress.c / zstd_compress_sequences.c); the model side is evaluated by coqc (vm_compute).
+def reuse_histories(ctx, variants=("o1", "asan")):
+    q = ctx.quick
+    plan = [p for p in (("o1", 960 if q else 90000, 30 if q else 500), ("asan", 320 if q else 24000, 20 if q else 300)) if p[0] in variants]
+    total = 0
+    for variant, n, chunk in plan:
+        exe = core.build_harness("c08_hist", ["c08_hist.c"], variant=variant, extra_flags=["-w"])
+        first = ctx.seed * 10000000 + (0 if variant == "o1" else 5000000)
+        lines = ["S h%d %d %d" % (k, first + k * chunk, chunk) for k in range(n // chunk)]
+        t0 = time.time()
+        out, errs = codec._run_chunks(exe, lines, core.NCPU, 2400)
+        for l in lines:
+            i = l.split(" ")[1]
+            rest = out.get(i)
+            if rest is None:
+                # a crash loses the chunk: find the scenario
+                a, cnt = int(l.split(" ")[2]), int(l.split(" ")[3])
+                culprit, detail = None, (errs[0][1][-1200:] if errs else "no output")
+                for sd in range(a, a + cnt):
+                    o2, e2 = codec._run_chunks(exe, ["S x %d 1" % sd], 1, 600)
+                    if e2 or "x" not in o2:
+                        culprit, detail = sd, (e2[0][1] if e2 else "no output")[-1200:]
+                        break
+                ctx.violation(dict(kind="hist", variant=variant, seed=culprit, detail=detail),
+                              what="c08_hist (%s build) crashed or trapped in scenario %s: %s" % (variant, culprit, detail[-300:].replace("\n", " ")),
+                              key="C08-hist-sanitizer" if variant == "asan" else "C08-hist-crash")
+                continue
+            if rest.startswith("FAIL"):
+                f = dict(kv.split("=", 1) for kv in rest.split(" ")[1:] if "=" in kv)
+                what = f.get("what", "?").replace("_", " ")
+                key = ("C08-hist-dictid" if "records dictID" in what else "C08-hist-wrong-id-accepted" if "instead of being refused" in what
+                       else "C08-hist-silent-wrong-bytes" if "DIFFERENT BYTES" in what else "C08-hist-round-trip")
+                ctx.violation(dict(kind="hist", variant=variant, seed=int(f.get("seed", "0")), what=what, history=f.get("history", "").replace("_", " ")[:6000]),
+                              what="call history on one context: %s [scenario %s: %s]" % (what, f.get("seed"), f.get("history", "").replace("_", " ")[-500:]), key=key)
+            else:
+                m = re.search(r"frames=(\d+)", rest)
+                total += int(m.group(1)) if m else 0
+        core.log("c08 reuse histories: %s %d scenarios %.1fs" % (variant, n, time.time() - t0))
+        ctx.count(("reuse-histories", variant), nontrivial=True, n=n)
+    ctx.notes["reuse_history_frames"] = total
+
+
+def hist_replay(ctx, rp):
+    exe = core.build_harness("c08_hist", ["c08_hist.c"], variant=rp.get("variant", "o1"), extra_flags=["-w"])
+    out, errs = codec._run_chunks(exe, ["S r %d 1" % int(rp.get("seed") or 0)], 1, 1200)
+    rest = out.get("r", "no output")
+    core.log("replay: %s" % rest[:600])
+    if errs or not rest.startswith("OK"):
+        ctx.violation(rp, what="replayed: %s %s" % (rest[:400].replace("_", " "), (errs[0][1][-300:] if errs else "")))
+
+
+def unit_tie(ctx, rng, dicts, verdict):
+    q = ctx.quick
+    exe = core.build_harness("c08_unit", ["c08_unit.c"], variant="o1", lib_exclude=["zstd_compress.c", "zstd_compress_sequences.c"], extra_flags=["-w"])
+    lines, terms, expect = [], [], {}
+    RM = {"RNone": 0, "RCheck": 1, "RValid": 2}
+
+    def zl(vals):
+        return "[" + "; ".join("(%d)%%Z" % v for v in vals) + "]"
+    # N : ZSTD_dictNCountRepeat
+    for k in range(60 if q else 1500):
+        n = rng.randint(1, 53)
+        vals = [rng.choice([0, 0, 1, -1, 3, 7]) if rng.random() < rng.choice([0.05, 0.3]) else rng.choice([1, -1, 2, 5]) for _ in range(n)]
+        dms = n - 1 if rng.random() < 0.7 else rng.randint(0, 52)
+        ms = rng.choice([dms, dms, max(0, dms - 1), dms + 1, rng.randint(0, 52), n - 1])
+        if k % 3 == 0:      # boundary-aimed: exactly one absent symbol, at / next to the last symbol checked
+            n = rng.randint(2, 53)
+            dms = n - 1
+            ms = rng.randint(1, dms)
+            vals = [rng.choice([1, -1, 2, 5]) for _ in range(n)]
+            z = rng.choice([ms, ms, ms - 1, min(ms + 1, n - 1), 0])
+            vals[z] = 0
+        lines.append("N n%d %d %d %s" % (k, dms, ms, ",".join(map(str, vals))))
+        terms.append(("n%d" % k, "[rm (ncount_repeat %s %d %d)]" % (zl(vals), dms, ms)))
+    # A : ZSTD_shouldAttachDict / retained content / first repeat-offset probe (C08Attach)
+    lim = (1 << 24) - 2
+    acases = [(1, 17000000, (17000000, 4, 8), 0), (1, 17000000, (1000, 4, 8), 0), (2, lim, (lim, 4, 8), 0), (1, lim - 1, (lim - 1, 1, 8), 1), (2, lim + 1, (lim + 1, 4, 8), 0),
+              (2, lim + 1, (lim, 4, lim + 1), 1), (3, 17000000, (17000000, 4, 8), 0), (1, 5000, (5000, 4, 8), 0)]
+    for _ in range(0 if q else 40):
+        cs = rng.choice([lim - 2, lim, lim + 1, lim + 3, 17000000, 20000, 1 << 20, rng.randint(9, 18000000)])
+        acases.append((rng.choice([1, 1, 2, 2, 3, 4]), cs, tuple(rng.choice([1, 4, 8, cs, cs - 1, lim, lim + 1, rng.randint(1, cs)]) for _ in range(3)), rng.choice([0, 1])))
+    for k, (st, cs, reps, pref) in enumerate(acases):
+        reps = tuple(min(max(1, r), cs) for r in reps)
+        lines.append("A a%d %d %d %d,%d,%d %d" % (k, st, cs, reps[0], reps[1], reps[2], pref))
+        tg = "true" if st <= 2 else "false"
+        rl = "[%d; %d; %d]" % reps
+        terms.append(("a%d" % k, "[C08Attach.retained %s %d; bn (C08Attach.may_attach true %s %d %s); C08Attach.prefix_start %s %d; C08Attach.rep_index (C08Attach.prefix_start %s %d) %d]"
+                      % (tg, cs, tg, cs, rl, tg, cs, tg, cs, reps[0])))
+        expect["a%d" % k] = (st, cs, reps, pref)
+    out1, errs1 = codec._run_chunks(exe, lines, core.NCPU, 1200)
+    # E : ZSTD_loadCEntropy's three marks (the counters are read back by the harness and handed to the model)
+    elines = []
+    fm = [(n, d) for i, (n, d) in enumerate(dicts) if d[:4] == MAGIC and len(d) > 8 and verdict.get(i, (False, False))[0]]
+    rng.shuffle(fm)
+    bsz = [-1, 1, 8, 1000, 131070, 131071, 131072, 131073, 393215, 393216, 917503, 917504, 65536]
+    for k, (n, d) in enumerate(fm[:(10 if q else 120)]):
+        for cs in ([-1] + rng.sample(bsz[1:], 3 if q else 8)):
+            elines.append("E e%d_%d %s %d" % (k, len(elines), codec.hx(d), cs))
+    out2, errs2 = codec._run_chunks(exe, elines, core.NCPU, 1200)
+    # second pass, boundary-aimed: content sizes that put offcodeMax exactly on / just below an absent offset code of the dictionary's table
+    extra = []
+    for l in list(elines):
+        t = l.split(" ")
+        r = out2.get(t[1], "ERR").split(" ")
+        if t[3] != "-1" or r[0] != "OK":
+            continue
+        mx, vals = r[5].split(":")
+        zs = [z for z, v in enumerate(vals.split(",")) if v == "0" and 17 <= z <= 22] + ([int(mx) + 1] if 17 <= int(mx) + 1 <= 22 else [])
+        for z in zs[:2]:
+            for cs in ((1 << z) - 131072, (1 << z) - 131073, (1 << (z + 1)) - 131072):
+                if cs >= 1:
+                    extra.append("E %sb%d %s %d" % (t[1], len(extra), t[2], cs))
+    if extra:
+        o2b, e2b = codec._run_chunks(exe, extra, core.NCPU, 1200)
+        out2.update(o2b)
+        errs2 = errs2 + e2b
+        elines += extra
+    for l in elines:
+        i = l.split(" ")[1]
+        r = out2.get(i, "ERR missing").split(" ")
+        if r[0] != "OK":
+            continue
+        c = int(r[1])
+        tabs = []
+        for t in r[5:8]:
+            mx, vals = t.split(":")
+            tabs.append((int(mx), [int(v) for v in vals.split(",")]))
+        terms.append((i, "[rm (of_mode %s %d %d); rm (ncount_repeat %s %d MaxML); rm (ncount_repeat %s %d MaxLL)]" % (
+            zl(tabs[0][1]), tabs[0][0], c, zl(tabs[1][1]), tabs[1][0], zl(tabs[2][1]), tabs[2][0])))
+        expect[i] = [int(r[2]), int(r[3]), int(r[4])]
+    # S : ZSTD_selectEncodingType with a previous table built from random normalized counters
+    slines, sinfo = [], {}
+    for k in range(150 if q else 4000):
+        kind = rng.randrange(3)
+        kmax, flog = ((31, 8), (52, 9), (35, 9))[kind]
+        log, vals = rand_norm(rng, rng.randint(2, kmax + 1), flog).split(":")
+        vals = [int(v) for v in vals.split(",")]
+        ns = rng.choice([1, 2, 3, 8, 40, 300, 999, 1000, 1001, 5000])
+        syms = [rng.randrange(min(kmax + 1, len(vals) + rng.choice([0, 0, 0, 2]))) for _ in range(rng.randint(1, 6))]
+        if rng.random() < 0.6:
+            syms = [s_ for s_ in syms if s_ < len(vals) and vals[s_] != 0] or [len(vals) - 1]
+        hist = {}
+        left = ns
+        for j, s_ in enumerate(syms):
+            c = left if j == len(syms) - 1 else rng.randint(0, left)
+            if c:
+                hist[s_] = hist.get(s_, 0) + c
+            left -= c
+        if not hist:
+            hist[syms[0]] = ns
+        strat = rng.randint(1, 9)
+        mode = rng.choice([0, 1, 2, 2])
+        i = "s%d" % k
+        slines.append("S %s %d %d %d %s %s %s" % (i, strat, kind, mode, log, ",".join(map(str, vals)), ",".join("%d:%d" % kv for kv in sorted(hist.items()))))
+        sinfo[i] = (strat, kind, mode, vals, hist)
+    out3, errs3 = codec._run_chunks(exe, slines, core.NCPU, 1200)
+    for i, (strat, kind, mode, vals, hist) in sinfo.items():
+        r = out3.get(i, "ERR missing").split(" ")
+        if r[0] != "OK":
+            continue
+        typ, nm, da, nbseq, most, basic, tbl, comp = r[1:9]
+        dnl = (5, 6, 6)[kind]
+        used = "[" + "; ".join(str(s_) for s_ in sorted(hist)) + "]"
+        blk = ("{| b_used := %s; b_nbSeq := %s; b_mostFreq := %s; b_basic := %s; b_tblcost := %s; b_comp := %s; b_newtab := {| tb_cnt := []; tb_max := 0 |}; b_kept := true |}"
+               % (used, nbseq, most, basic if basic != "E" else "0", tbl if tbl != "E" else "0", comp))
+        tab = "{| tb_cnt := %s; tb_max := %d |}" % (zl(vals), len(vals) - 1)
+        terms.append((i, "(let r := select %d %s %d %s %s %s in [et (fst r); rm (snd r); bn (cost_ok %s %s)])" % (
+            strat, "true" if da == "1" else "false", dnl, ("RNone", "RCheck", "RValid")[mode], tab, blk, tab, used)))
+        expect[i] = [int(typ), int(nm), 0 if tbl == "E" else 1]
+    if errs1 or errs2 or errs3:
+        e = (errs1 + errs2 + errs3)[0]
+        ctx.violation(dict(kind="unit-crash", detail=e[1][-1500:]), what="c08_unit crashed: %s" % e[1][-300:].replace("\n", " "), no_input=True)
+    # ---- the model's answers ----
+    wd = os.path.join(core.BUILD, "wip", "c08-unit-%d-%d" % (os.getpid(), ctx.seed))
+    os.makedirs(wd, exist_ok=True)
+    with open(os.path.join(wd, "Unit.v"), "w") as f:
+        f.write("From Coq Require Import NArith ZArith List.\nFrom ZV.Codec Require C08Attach.\nFrom ZV.Codec Require Import C08Repeat.\nImport ListNotations.\nLocal Open Scope N_scope.\n"
+                "Definition rm (m : rmode) : N := match m with RNone => 0 | RCheck => 1 | RValid => 2 end.\n"
+                "Definition et (e : etype) : N := match e with Basic => 0 | Rle => 1 | Compressed => 2 | Repeat => 3 end.\n"
+                "Definition bn (b : bool) : N := if b then 1 else 0.\n"
+                "Eval vm_compute in [%s].\n" % ";\n ".join(t for _, t in terms))
+    rc, o, e = core.sh(["timeout", "900", "coqc", "-Q", core.COQ, "ZV", "Unit.v"], cwd=wd)
+    shutil.rmtree(wd, ignore_errors=True)
+    body = o[o.index("= [") + 2:o.rindex(": list (list N)")] if rc == 0 and ": list (list N)" in o else ""
+    model = [[int(v) for v in re.findall(r"\d+", part)] for part in re.findall(r"\[([^\[\]]*)\]", body)]
+    if len(model) != len(terms):
+        ctx.violation(dict(kind="model-eval", detail=(o + e)[-1500:]), what="coqc could not evaluate the C08Repeat / C08Attach models on the generated unit cases (%d of %d)" % (len(model), len(terms)), no_input=True)
+        return
+    nbad = 0
+    for (i, term), mv in zip(terms, model):
+        if i[0] == "n":
+            r = out1.get(i, "ERR missing").split(" ")
+            got = [int(r[1])] if r[0] == "OK" else None
+            okk = got == mv
+            what = "ZSTD_dictNCountRepeat"
+        elif i[0] == "a":
+            r = out1.get(i, "ERR missing").split(" ")
+            st, cs, reps, pref = expect[i]
+            if r[0] != "OK":
+                got, okk = r, False
+            else:
+                tagged, retained, sa, attached, ps = int(r[1]), int(r[2]), int(r[3]), int(r[4]), int(r[5])
+                got = [retained, sa] + ([ps, int(r[7])] if attached else [])
+                okk = (tagged == (1 if st <= 2 else 0) and retained == mv[0] and sa == mv[1] and attached == sa
+                       and (not attached or (ps == mv[2] and int(r[7]) == mv[3] and r[6] == "%d,%d,%d" % reps)))
+            what = "ZSTD_shouldAttachDict / retained content / first repeat-offset index"
+        elif i[0] == "e":
+            got, okk, what = expect[i], expect[i] == mv, "repeat modes set by ZSTD_loadCEntropy (offset, match-length, literal-length tables)"
+        else:
+            got, okk, what = expect[i], expect[i] == mv, "ZSTD_selectEncodingType (type, new repeat mode) / ZSTD_fseBitCost error status"
+        if not okk:
+            nbad += 1
+            if nbad <= 3:
+                line = next((l for l in lines + elines + slines if l.split(" ")[1] == i), "")
+                ctx.violation(dict(kind="unit", line=line[:4000], model=mv, impl=got, term=term[:3000]),
+                              what="unit tie: %s differs from the Gallina model: libzstd %s, model %s (line %s)" % (what, got, mv, line[:200]), key="C08-unit-tie-" + i[0])
+        ctx.count(("unit", i[0], tuple(mv)), nontrivial=True)
+    ctx.notes["unit_tie_cases"] = {"dictNCountRepeat": sum(1 for i, _ in terms if i[0] == "n"), "attach": sum(1 for i, _ in terms if i[0] == "a"),
+                                   "loadCEntropy": sum(1 for i, _ in terms if i[0] == "e"), "selectEncodingType": sum(1 for i, _ in terms if i[0] == "s")}
+    ctx.cov["traces_validated_against_impl"] += len(terms)
+
+
 def api_replay(ctx, rp):
     exe = core.build_harness("c08_api", ["c08_api.c"], variant=rp.get("variant", "o1"), extra_flags=["-w"])
     if not rp.get("line"):
@@ -555,6 +781,10 @@ def run(ctx):
             rp = {}
         if isinstance(rp, dict) and rp.get("kind") == "api":
             api_replay(ctx, rp)
+            ctx.proof_verdict(None)
+            return
+        if isinstance(rp, dict) and rp.get("kind") == "hist":
+            hist_replay(ctx, rp)
             ctx.proof_verdict(None)
             return
     rng = random.Random(ctx.seed)
@@ -758,6 +988,8 @@ def run(ctx):
                       what="ASan/UBSan build crashed or trapped while using arbitrary bytes as a dictionary: %s" % aerrs[0][1][-300:].replace("\n", " "))
     ctx.count(("arbitrary-dict-bytes", len(aout) > 0), nontrivial=True, n=len(alines))
     api_surface(ctx, random.Random(ctx.seed * 7919 + 5), cd, dicts, verdict)
+    unit_tie(ctx, random.Random(ctx.seed * 104729 + 11), dicts, verdict)
+    reuse_histories(ctx)
     ctx.sample(dict(dictionary=dicts[-1][0], dict_hex=dicts[-1][1].hex()[:300]))
     if cases:
         ctx.sample(dict(entry=cases[0]["entry"], dictmode=cases[0]["dictmode"], params=cases[0]["params"], dict=dicts[cases[0]["di"]][0]))
